@@ -65,6 +65,7 @@ func (u *UseCase) UpdateTx(ctx context.Context, oldTxId, newTxId string, filter 
 		}
 	}
 	newTx.RUnlock()
+	verifhook.At("commit.afterCheck")
 	if err != nil {
 		return
 	}
